@@ -18,7 +18,7 @@
 (* (pseudo-random but reproducible); mode "onegap" puts one chosen layout  *)
 (* at one chosen gap (exhaustive: every gap x every layout).               *)
 (***************************************************************************)
-EXTENDS Printer, Grammar, Json, IOUtils, SequencesExt
+EXTENDS Printer, Grammar, Lexer, Json, IOUtils, SequencesExt
 
 Trees == ndJsonDeserialize(IOEnv.TREES)
 CONSTANTS Seeds,      \* set of seeds for mode "seeded"
@@ -88,5 +88,10 @@ Out == [id |-> Trees[ti].id, text |-> text \o "\n", mode |-> mode,
         maybe |-> IF WithStatic THEN SetToSeq({<<x[1], spans[nodes[x[2]].f].s.ln, spans[nodes[x[2]].f].s.ch, spans[nodes[x[2]].l].e.ln, spans[nodes[x[2]].l].e.ch, nodes[x[2]].name>>
                                               : x \in MaybeUnusedSet(nodes)})
                   ELSE <<>>]
-EmitInv == Done => PrintT("GEN " \o ToJson(Out))
+\* the printed characters must read back as the printed tokens (Lexer!Lex): a layout that glues two lexemes together or lets
+\* a string run on to a later quote describes another script than the tree, and is not emitted
+LexAgrees == LET lx == Lex(text \o "\n") IN
+             lx.errs = <<>> /\ Len(lx.toks) = Len(toks) /\ \A j \in 1..Len(toks) : lx.toks[j].t = toks[j]
+C15_PrintedReadsBack == Done => LexAgrees
+EmitInv == (Done /\ LexAgrees) => PrintT("GEN " \o ToJson(Out))
 =============================================================================
